@@ -223,6 +223,12 @@ fn main() {
       }
       worker(&args[1], args[2].parse().unwrap(), args[3].parse().unwrap())
     }
+    "hashproc" => {
+      let mut text = String::new();
+      std::io::Read::read_to_string(&mut std::io::stdin(), &mut text).unwrap();
+      let tree: Value = serde_json::from_str(&text).expect("tree json");
+      println!("{}", exec::hash_of_tree(&tree));
+    }
     "gen" => {
       if args.len() != 5 {
         usage();
